@@ -387,7 +387,7 @@ def write_evidence(prop, tier, seed, coverage, wall_s, violations, assumptions):
         'wall_s': round(wall_s, 3),
         'violations': int(violations),
     }
-    write_json(os.path.join(VERIF_DIR, 'evidence', f'{prop}.json'), ev)
+    write_json(os.path.join(os.environ.get('VERIF_EVIDENCE_DIR') or os.path.join(VERIF_DIR, 'evidence'), f'{prop}.json'), ev)
     return ev
 
 
